@@ -32,12 +32,16 @@
 (* integer R (P = R^T R, cov = R^-1 R^-T, sqrtcov = R^-1, sqrtprec = R) or   *)
 (* from diagonal entries in {1, 4} (cov 1/4, sqrtcov 1/2, sqrtprec 2), so  *)
 (* Lambda, M, b~ are integer and only Lambda^-1 = adj/det is rational.     *)
+(*   reassign   : ONE problem object whose inputs are re-assigned through the  *)
+(*                public setters (two versions of every input): in every     *)
+(*                reachable state the closed forms equal those of a freshly  *)
+(*                built problem with the values currently assigned.          *)
 (* Code departures are NAMED DEVIATIONS (constant Dev), off in the deciding *)
 (* configurations; a *.dev.cfg turns one on and expects a counterexample.  *)
 (***************************************************************************)
 EXTENDS Mat, FiniteSets, TLC, Json
 
-CONSTANTS Part,       \* "rto" | "ugla" | "map" | "poly" | "route"
+CONSTANTS Part,       \* "rto" | "ugla" | "map" | "poly" | "route" | "reassign"
           Thorough,   \* BOOLEAN: wide instance
           Emit,       \* BOOLEAN: print one @@CASE per configuration
           Dev         \* "none" or the name of a deviation
@@ -50,8 +54,8 @@ VARIABLES c,          \* configuration record
 vars == <<c, d, x, k>>
 
 Devs == {"none", "PriorMeanNotWhitened", "NoiseSqrtNotTransposed", "StackOrderSwapped", "UglaRhsUnscaled",
-         "VectorCovBroadcast", "MatrixIgnoresGeometry", "MapUsesPrecForCov"}
-ASSUME Dev \in Devs /\ Part \in {"rto", "ugla", "map", "poly", "route"}
+         "VectorCovBroadcast", "MatrixIgnoresGeometry", "MapUsesPrecForCov", "StaleCovAfterReassign"}
+ASSUME Dev \in Devs /\ Part \in {"rto", "ugla", "map", "poly", "route", "reassign"}
 
 \* ---------------------------------------------------------------------------
 \* integer linear algebra (sequences of Int)
@@ -557,9 +561,129 @@ PolyCase == [kind |-> "poly", model |-> c.model, xs |-> c.xs, r |-> c.r, F |-> d
              xstar_q |-> d.xs, y_q |-> d.y, mu_q |-> d.mu, pe |-> c.pe, px |-> c.px, res_q |-> d.res, hess_q |-> d.hess, pd |-> d.pd]
 
 \* ===========================================================================
+\* Part "reassign": sequences on ONE BayesianProblem (C15, round 4)
+\* ===========================================================================
+\* Every input of the linear-Gaussian problem exists in two VERSIONS (same dimensions, same model, same input form, other
+\* values): prior mean, parameter of the prior, parameter of the noise, data.  The abstract state of the one problem
+\* object is the version currently assigned to each of the four fields plus the version of the covariance matrix held by
+\* the cache of each Gaussian (0 = empty; filled by compute_cov()).  Actions: ReWarm (compute_cov() of both Gaussians),
+\* ReAssign(f) (public setter of field f with the value of version 2; the INTENDED design empties the cache of the
+\* Gaussian whose parameter is assigned).  What the closed-form route returns in a state is the closed form evaluated
+\* with the covariance it READS (the cached matrix if there is one).  ReassignIsFresh: in every reachable state this
+\* equals the closed form of a freshly built problem with the currently assigned values (the mixed configuration).
+\* Deviation StaleCovAfterReassign: the setter keeps the cached covariance of the previous value.
+ReFields   == {"mean", "prior", "noise", "data"}
+RDiagP(kind, dd, v) == IF kind = "scal" /\ v = 2 THEN [i \in 1..dd |-> 16] ELSE DiagP(kind, dd, v)
+RISq(p)      == CASE p = 16 -> 4 [] p = 4 -> 2 [] OTHER -> 1
+RGaussL(kind, dd, v) == IF kind = "full" THEN RTri(dd, v) ELSE IDiag([i \in 1..dd |-> RISq(RDiagP(kind, dd, v)[i])])
+RGaussParam(kind, form, dd, v) ==
+    IF kind = "full" THEN GaussParam(kind, form, dd, v)
+    ELSE LET p == RDiagP(kind, dd, v)
+             val(i) == CASE form = "cov" -> Q(1, p[i]) [] form = "prec" -> R(p[i])
+                         [] form = "sqrtcov" -> Q(1, RISq(p[i])) [] form = "sqrtprec" -> R(RISq(p[i]))
+         IN CASE kind = "scal" -> val(1)
+              [] kind = "vec"  -> [i \in 1..dd |-> val(i)]
+              [] kind = "dmat" -> MDiag([i \in 1..dd |-> val(i)])
+\* the parameter of version v, read as the form says, describes the Gaussian with square-root precision RGaussL
+RFormOk(kind, form, dd, v) ==
+    LET L  == RGaussL(kind, dd, v)
+        P  == MR(IMM(IT(L), L))
+        q  == RGaussParam(kind, form, dd, v)
+        Mq == CASE kind = "scal" -> MDiag([i \in 1..dd |-> q]) [] kind = "vec" -> MDiag(q) [] OTHER -> q
+    IN CASE form = "cov" -> MM(Mq, P) = MId(dd) [] form = "prec" -> Mq = P
+         [] form = "sqrtcov" -> MM(MM(Mq, MT(Mq)), P) = MId(dd) [] form = "sqrtprec" -> MM(MT(Mq), Mq) = P
+RMu(n, mk, v)    == IF v = 1 THEN Mu0(n, mk) ELSE IF mk = "scalar" THEN [i \in 1..n |-> -1] ELSE [i \in 1..n |-> (3 * (i % 2)) - 1]
+RDelta(pf, v)    == IF v = 1 THEN pf.delta ELSE IF pf.delta = 1 THEN 4 ELSE 1
+RPriorL(pf, n, v) == IF pf.kind = "gmrf" THEN IMSc(ISq(RDelta(pf, v)), GD(n, pf.order)) ELSE RGaussL(pf.kind, n, v)
+
+ReShapes == IF Thorough THEN {<<3, 2>>, <<2, 3>>, <<2, 2>>} ELSE {<<3, 2>>, <<2, 3>>}
+ReConfigs ==
+    { [kind |-> "reassign", m |-> sh[1], na |-> sh[2], av |-> 1, i1 |-> i, j |-> j,
+       mk |-> IF (i + j) % 2 = 0 THEN "vec" ELSE "scalar", mdl |-> IF i % 2 = 0 THEN "matrix" ELSE "func"] :
+        sh \in ReShapes, i \in 1..NGF, j \in 1..20 }
+SelRe(r) == /\ (PForm(r.j).kind = "gmrf" => r.j \in {17, 20} /\ r.i1 \in {1, 8, 14})
+            /\ (IF Thorough THEN r.m = 3 \/ r.i1 = r.j \/ r.i1 + r.j = 17 \/ r.j > 16
+                ELSE \/ r.m = 3 /\ (r.i1 = r.j \/ r.i1 + r.j = 17 \/ r.j > 16)
+                     \/ r.m = 2 /\ r.i1 = r.j /\ r.i1 \in {1, 6, 11, 16})
+
+ReDerived(r) ==
+    LET A    == AMat(r.m, r.na, r.av)
+        n    == r.na
+        gi   == GForm(r.i1)
+        pf   == PForm(r.j)
+        ver(v) == LET Lp == RPriorL(pf, n, v)
+                      Le == RGaussL(gi.kind, r.m, v)
+                      P0 == IMM(IT(Lp), Lp)
+                      Pe == IMM(IT(Le), Le)
+                  IN [mu0 |-> RMu(n, r.mk, v), y |-> YVec(r.m, v), Lp |-> Lp, Le |-> Le, P0 |-> P0, Pe |-> Pe,
+                      C0 |-> QM(IAdj(P0), IDet(P0)), Ce |-> QM(IAdj(Pe), IDet(Pe)),
+                      delta |-> RDelta(pf, v),
+                      pparam |-> IF pf.kind = "gmrf" THEN R(RDelta(pf, v)) ELSE RGaussParam(pf.kind, pf.form, n, v),
+                      nparam |-> RGaussParam(gi.kind, gi.form, r.m, v)]
+    IN [n |-> n, A |-> A, G |-> A, fullrank |-> Rank(MR(A)) = n, ver |-> F([v \in 1..2 |-> ver(v)])]
+
+\* closed forms (information form) of the problem whose four fields carry the versions vm, vp, vn, vd
+RePost(dd, vm, vp, vn, vd) ==
+    LET G    == dd.G
+        P0   == dd.ver[vp].P0
+        Pe   == dd.ver[vn].Pe
+        mu0  == dd.ver[vm].mu0
+        y    == dd.ver[vd].y
+        GtPG == IMM(IT(G), IMM(Pe, G))
+        Lam  == IMAdd(GtPG, P0)
+        rhs  == IVAdd(IMV(IT(G), IMV(Pe, y)), IMV(P0, mu0))
+        det  == IDet(Lam)
+        adj  == IAdj(Lam)
+    IN [Lam |-> Lam, rhs |-> rhs, det |-> det, adj |-> adj, mu |-> QV(IMV(adj, rhs), det), LamInv |-> QM(adj, det),
+        GtPG |-> GtPG,
+        xml |-> IF dd.fullrank THEN QV(IMV(IAdj(GtPG), IMV(IT(G), IMV(Pe, y))), IDet(GtPG)) ELSE VR(IZeroV(dd.n))]
+ReFresh(dd, s) == RePost(dd, s.mean, s.prior, s.noise, s.data)
+\* version of the covariance the closed-form route reads: the cached matrix if the cache is filled, else the assigned one
+ReRead(cache, cur) == IF cache # 0 THEN cache ELSE cur
+ReObs(dd, s)   == RePost(dd, s.mean, ReRead(s.pc, s.prior), ReRead(s.nc, s.noise), s.data)
+
+ReInitState == [mean |-> 1, prior |-> 1, noise |-> 1, data |-> 1, pc |-> 0, nc |-> 0]
+
+\* ---- invariants of part reassign ------------------------------------------------
+ReReference == Part = "reassign" =>
+    LET fr == ReFresh(d, x) gi == GForm(c.i1) pf == PForm(c.j)
+    IN /\ IPosDef(fr.Lam) /\ IMM(fr.adj, fr.Lam) = IMSc(fr.det, IId(d.n))
+       /\ (d.fullrank => IPosDef(fr.GtPG))
+       /\ \A v \in 1..2 : /\ RFormOk(gi.kind, gi.form, c.m, v)
+                          /\ (pf.kind # "gmrf" => RFormOk(pf.kind, pf.form, d.n, v))
+                          /\ MM(d.ver[v].C0, MR(d.ver[v].P0)) = MId(d.n) /\ MM(d.ver[v].Ce, MR(d.ver[v].Pe)) = MId(c.m)
+       \* the two versions differ in every field (otherwise an assignment would test nothing)
+       /\ d.ver[1].mu0 # d.ver[2].mu0 /\ d.ver[1].y # d.ver[2].y /\ d.ver[1].P0 # d.ver[2].P0 /\ d.ver[1].Pe # d.ver[2].Pe
+       /\ d.ver[1].pparam # d.ver[2].pparam /\ d.ver[1].nparam # d.ver[2].nparam
+       \* version 1 is the Gaussian of parts map / rto (same catalogue)
+       /\ d.ver[1].Le = GaussL(gi.kind, c.m, 1) /\ (pf.kind # "gmrf" => d.ver[1].Lp = GaussL(pf.kind, d.n, 1))
+ReassignIsFresh == Part = "reassign" =>
+    LET fr == ReFresh(d, x) ob == ReObs(d, x)
+    IN /\ ob.mu = fr.mu /\ ob.LamInv = fr.LamInv /\ ob.xml = fr.xml
+       /\ (x.pc # 0 => d.ver[x.pc].C0 = d.ver[x.prior].C0)          \* a cached covariance is the covariance of the assigned value
+       /\ (x.nc # 0 => d.ver[x.nc].Ce = d.ver[x.noise].Ce)
+
+ReCase == LET fr == ReFresh(d, x) gi == GForm(c.i1) pf == PForm(c.j)
+              ptype == IF pf.kind = "gmrf" THEN "GMRF" ELSE "Gaussian"
+          IN [kind |-> "reassign", n |-> d.n, m |-> c.m, na |-> c.na, geo |-> "default", mk |-> c.mk, mdl |-> c.mdl, i1 |-> c.i1, j |-> c.j, av |-> c.av,
+              sel |-> [mean |-> x.mean, prior |-> x.prior, noise |-> x.noise, data |-> x.data],
+              A |-> d.A, E |-> IId(d.n), G |-> d.G, y |-> d.ver[x.data].y,
+              noise |-> [kind |-> gi.kind, form |-> gi.form, shape |-> ParamShape(gi.kind), param_q |-> d.ver[x.noise].nparam],
+              prior |-> [kind |-> pf.kind, form |-> pf.form, order |-> pf.order, delta |-> d.ver[x.prior].delta, shape |-> ParamShape(pf.kind),
+                         param_q |-> d.ver[x.prior].pparam,
+                         blocks |-> << [L |-> d.ver[x.prior].Lp, mu |-> d.ver[x.mean].mu0] >>],
+              route |-> MapRoute(ptype, "Gaussian", "Linear", TRUE), sroute |-> SampleRoute(ptype, "Gaussian", "Linear", TRUE, TRUE),
+              P0 |-> d.ver[x.prior].P0, Pe |-> d.ver[x.noise].Pe, C0_q |-> d.ver[x.prior].C0, Ce_q |-> d.ver[x.noise].Ce,
+              Lam |-> fr.Lam, rhs |-> fr.rhs, mu_q |-> fr.mu, LamInv_q |-> fr.LamInv,
+              fullrank |-> d.fullrank, xml_q |-> fr.xml, GtPG |-> fr.GtPG]
+\* emission: one line per (configuration, versions assigned), at the state with empty caches
+EmittedRe == (Emit /\ Part = "reassign" /\ x.pc = 0 /\ x.nc = 0) => PrintT("@@CASE " \o ToJson(ReCase) \o " @@END")
+
+\* ===========================================================================
 \* state machine
 \* ===========================================================================
 Configs == CASE Part = "rto"   -> RtoConfigs
+             [] Part = "reassign" -> {r \in ReConfigs : SelRe(r)}
              [] Part = "ugla"  -> {r \in UglaConfigs : SelUgla(r)}
              [] Part = "map"   -> {r \in MapConfigs : SelMap(r)}
              [] Part = "poly"  -> PolyConfigs
@@ -569,11 +693,13 @@ Derived(r) == CASE Part = "rto"   -> RtoDerived(r)
                 [] Part = "map"   -> MapDerived(r)
                 [] Part = "poly"  -> PolyDerived(r)
                 [] Part = "route" -> [none |-> 0]
+                [] Part = "reassign" -> ReDerived(r)
 
 Init == /\ c \in Configs
         /\ d = Derived(c)
         /\ k = -1
-        /\ x \in (CASE Part = "rto" -> RtoInitStates(c.n) [] Part = "ugla" -> {VR(d.xk)} [] OTHER -> {<<>>})
+        /\ x \in (CASE Part = "rto" -> RtoInitStates(c.n) [] Part = "ugla" -> {VR(d.xk)} [] Part = "reassign" -> {ReInitState}
+                     [] OTHER -> {<<>>})
 
 \* one sampler transition with a scripted perturbation; RTO: from every reachable state (two successive draws);
 \* UGLA: one transition from the lattice point (the next state is off the lattice)
@@ -583,7 +709,19 @@ RtoDraw  == /\ Part = "rto" /\ TLCGet("level") <= 2
 UglaDraw == /\ Part = "ugla" /\ k = -1 /\ d.ok
             /\ x' = UglaStep(d) /\ k' = 0
             /\ UNCHANGED <<c, d>>
-Next == RtoDraw \/ UglaDraw
+\* part reassign: x is the abstract state of the ONE problem object (versions assigned, versions cached)
+ReWarm   == /\ Part = "reassign"
+            /\ x' = [x EXCEPT !.pc = IF PForm(c.j).kind = "gmrf" THEN 0 ELSE x.prior, !.nc = x.noise]   \* compute_cov() of both Gaussians
+            /\ x' # x
+            /\ UNCHANGED <<c, d, k>>
+ReAssign == /\ Part = "reassign"
+            /\ \E f \in ReFields :
+                  /\ x[f] = 1
+                  /\ x' = [x EXCEPT ![f] = 2,
+                                    !.pc = IF f = "prior" /\ Dev # "StaleCovAfterReassign" THEN 0 ELSE @,
+                                    !.nc = IF f = "noise" /\ Dev # "StaleCovAfterReassign" THEN 0 ELSE @]
+            /\ UNCHANGED <<c, d, k>>
+Next == RtoDraw \/ UglaDraw \/ ReWarm \/ ReAssign
 Spec == Init /\ [][Next]_vars
 
 \* emission: one line per configuration, at its first initial state
